@@ -255,6 +255,13 @@ Fixpoint hist_ok (prev : reading) (l : list (N * fate * reading)) : bool :=
 Definition reads_ok (l : list (N * reading)) : bool :=
   forallb (fun x => reading_eqb (snd x) (RVal (fst x))) l.
 
+(* A call of the real code that does not RETURN (a store that never completes, a getter that never
+   answers) yields no reading at all: the observation is the history "one store attempt, then a reading
+   that is no value", judged with the most lenient fate (an attempt that died may leave the previous or
+   its own value) - the specification still wants a complete value to be read. *)
+Definition hung_obs : list (N * fate * reading) := [(1%N, Died, ROther)].
+Definition hung_ok : bool := hist_ok (RVal 0%N) hung_obs.
+
 Definition decode (val : N -> bytes) (r : reading) : option bytes :=
   match r with RVal v => Some (val v) | ROther => None end.
 
